@@ -15,43 +15,48 @@ func (r ringOps) add(a, b *Term) *Term {
 	if r.s.Kind == "Int" {
 		return Add(a, b)
 	}
-	return App("r$add", SV, a, b)
+	return App("g$radd", SV, a, b)
 }
 func (r ringOps) sub(a, b *Term) *Term {
 	if r.s.Kind == "Int" {
 		return Sub(a, b)
 	}
-	return App("r$sub", SV, a, b)
+	return App("g$rsub", SV, a, b)
 }
 func (r ringOps) mul(a, b *Term) *Term {
 	if r.s.Kind == "Int" {
 		return Mul(a, b)
 	}
-	return App("r$mul", SV, a, b)
+	return App("g$rmul", SV, a, b)
 }
 func (r ringOps) neg(a *Term) *Term {
 	if r.s.Kind == "Int" {
 		return Sub(IntLit(0), a)
 	}
-	return App("r$neg", SV, a)
+	return App("g$rneg", SV, a)
 }
 func (r ringOps) zero() *Term {
 	if r.s.Kind == "Int" {
 		return IntLit(0)
 	}
-	return Const("r$zero", SV)
+	return Const("g$rzero", SV)
 }
 func (r ringOps) one() *Term {
 	if r.s.Kind == "Int" {
 		return IntLit(1)
 	}
-	return Const("r$one", SV)
+	return Const("g$rone", SV)
 }
 
-func gAdd(a, b *Term) *Term  { return App("g$add", SV, a, b) }
-func gNeg(a *Term) *Term     { return App("g$neg", SV, a) }
-func gZero() *Term           { return Const("g$zero", SV) }
-func gSmul(s, p *Term) *Term { return App("g$smul$"+sortTag(s.Sort), SV, s, p) }
+func gAdd(a, b *Term) *Term  { return App("g$gadd", SV, a, b) }
+func gNeg(a *Term) *Term     { return App("g$gneg", SV, a) }
+func gZero() *Term           { return Const("g$gzero", SV) }
+func gSmul(s, p *Term) *Term {
+	if s.Sort.Kind == "V" {
+		return App("g$gsmul", SV, s, p)
+	}
+	return App("g$gsmulI", SV, s, p)
+}
 
 func ctBool(c *Term) *Term { return Ite(c, IntLit(1), IntLit(0)) }
 
@@ -238,9 +243,9 @@ func (fc *FuncCtx) theoryCall(st *State, bind string, fn *types.Func, recv *Val,
 		val := func(t *Term) (Val, bool) { return Val{T: t, Typ: resT}, true }
 		switch name {
 		case "ScalarBaseOp", "ScalarBaseMul":
-			return val(gSmul(args[0].T, Const("g$gen", SV)))
+			return val(gSmul(args[0].T, Const("g$ggen", SV)))
 		case "Generator":
-			return val(Const("g$gen", SV))
+			return val(Const("g$ggen", SV))
 		case "OpIdentity", "Zero":
 			return val(gZero())
 		}
